@@ -97,3 +97,48 @@ func TestC06(t *testing.T) {
 		})
 	}
 }
+
+func init() {
+	for _, n := range Names {
+		pbt.Register("C07", "faults-"+n, RunC07)
+	}
+}
+
+func statefulUnderTest() []string {
+	var out []string
+	for _, n := range formatsUnderTest() {
+		if Formats[n].Stateful {
+			out = append(out, n)
+		}
+	}
+	return out
+}
+
+func TestC07(t *testing.T) {
+	maxFrames := 12
+	if pbt.Tier() == "thorough" {
+		maxFrames = 40
+	}
+	for _, name := range statefulUnderTest() {
+		f := Formats[name]
+		t.Run(name, func(t *testing.T) {
+			rapid.Check(t, func(rt *rapid.T) {
+				c := genFaultCase(rt, f, maxFrames)
+				if pbt.OpenFinding("C03-klv-multi-item") && klvMultiItemEarlyReturn(c.Stream) {
+					c.Stream, _ = klvAvoidClass(c.Stream)
+				}
+				st, err := runC07(c)
+				if st == nil {
+					st = &faultStats{Kinds: map[string]bool{}}
+				}
+				labels := []string{"format:" + name}
+				for k := range st.Kinds {
+					labels = append(labels, "fault:"+k)
+				}
+				pbt.Count("C07", "protected_frames", int64(st.Protected))
+				pbt.Count("C07", "unclean_frames", int64(st.Unclean))
+				pbt.Check(rt, "C07", "faults-"+name, c, st.NonTrivial, labels, func() error { return err })
+			})
+		})
+	}
+}
